@@ -70,3 +70,13 @@ TECHNIQUE.update({
     "C12": "taint/sanitiser discipline: provenance of every filesystem-sink argument over MIR",
     "C20": "provenance of progress fields + accepted-update-idiom whitelist over MIR",
 })
+
+PROPS.update({
+    "C17": {
+        "decided": "Fault / handler / timer wiring: the action dispatched in both handle_fault routines is fault_handler_override.get(declared condition).unwrap_or(Cancel); each action's arm runs its own routine (Ignore changes no state, Cancel -> _cancel, Suspend -> suspend, Abandon -> abandon); abandon reaches no transmission or PDU preparation and sets state = Terminated; every limit fault (PositiveLimitReached / NakLimitReached / InactivityDetected) is declared only on a path where the matching counter's limit_reached() returned true, and only through handle_fault; after a non-limit expiry every path re-arms the PDU that timer guards; PDU reception resets (not restarts) the inactivity count in both transaction kinds; in Counter, reset clears the count, nothing else does, the count grows by one (clamped) only under the elapsed >= timeout test, and limit_reached compares count with max_count after accounting for elapsed time.",
+        "not_decided": "The arithmetic of expiry times ('never earlier', 'exactly N' over virtual time), pausing while suspended (C19-B known finding), one retransmission per expiry as a count over time.",
+    },
+})
+TECHNIQUE.update({
+    "C17": "guarded reachability (limit_reached dominates fault declaration), dispatch-arm/callee tables, must-pass-through re-arm, sibling cross-check, writer whitelist of the counter field",
+})
